@@ -290,9 +290,11 @@ def _construction(prog, chk, R, ex, ev):
            key='chain:skip-index')
     if flag is not None:
         sets = [(n, r) for n, l, r, op in g.writes() if _ref_is(l, flag['id'])]
-        ok = bool(sets)
+        ok = any(SX.is_node(SX.strip(r_)) and SX.strip(r_).get('k') == 'bool' and SX.strip(r_)['v'] for _n, r_ in sets)
         for n, r in sets:
             r = SX.strip(r)
+            if SX.is_node(r) and r.get('k') == 'bool' and not r['v']:
+                continue      # (writing `false` never claims a consumed super statement: the early returns of a helper that yields the flag)
             if not (SX.is_node(r) and r.get('k') == 'bool' and r['v']):
                 ok = False
                 continue
